@@ -246,6 +246,8 @@ def run(ctx, known, built):
             ctx.obligation("correspondence:C01 %s (%d cases)" % (name, len(items)), not bad and len(items) > 0,
                            "%d of %d cases differ" % (len(bad), len(items)))
     ctx.note("correspondence done")
+    for x in ctx.disagreements[:3]:
+        ctx.note("disagreement: " + json.dumps(x, ensure_ascii=False, default=str)[:2500])
     ctx.cov.update({
         "evaluations": stats["roundtrips"],
         "distinct_nontrivial": stats["cases"],
